@@ -317,7 +317,8 @@ int assemble_code(
     util_context.memory.write8(address, value);
   }
 
-  org = asm_context.memory.high_address + 1;
+  // The next block starts behind this one; org is in the CPU's address units.
+  org = (asm_context.memory.high_address + 1) / asm_context.bytes_per_address;
 
   tokens_close(&asm_context);
 
